@@ -21,6 +21,9 @@ def tasks(tier, seed):
                 if (n, K) in ((2, 2), (2, 3)):
                     t.append(("contracts.gemini_eval", "task", (cls, ovo, n, K, "C02", "clipped-sym", seed), to,
                               f"{cls}[{'ovo' if ovo else 'ova'},{n}x{K},clipped-sym]"))
+                if (n, K) == (2, 3):
+                    t.append(("contracts.gemini_eval", "task", (cls, ovo, n, K, "C02", "clipped-mixed", seed), to,
+                              f"{cls}[{'ovo' if ovo else 'ova'},{n}x{K},clipped-mixed]"))
     return t
 
 
